@@ -28,6 +28,8 @@ type propSpec struct {
 	// nontrivial: did the case reach the property's mechanism?
 	nontrivial func(c *EvalCase) bool
 	rule       string
+	// unit streams (exact single-function comparisons) that belong to the property
+	units []unitStream
 }
 
 func core(o *WObs) []any {
@@ -152,6 +154,10 @@ var propSpecs = map[string]*propSpec{
 		},
 		nontrivial: func(c *EvalCase) bool { return c.Go != nil && c.Go.Result.Reason.Kind == "RULE_MATCH" },
 		rule:       "operator probe flags (every operator x negate x value-pool pairs x addressing x context shape); non-trivial = the probe rule matched",
+		units: []unitStream{
+			{"clause", 30000, func(g *gen, id string) *UnitCase { return g.clauseUnit(id) }},
+			{"semver", 20000, func(g *gen, id string) *UnitCase { return g.semverUnit(id) }},
+		},
 	},
 	"C05": {
 		id:      "C05",
@@ -175,6 +181,11 @@ var propSpecs = map[string]*propSpec{
 			return false
 		},
 		rule: "unit bucket/buffer/hex cases compared bit-exactly plus public-API rollouts with adjacent split points; non-trivial = a rollout exists in the configuration",
+		units: []unitStream{
+			{"bucket", 60000, func(g *gen, id string) *UnitCase { return g.bucketUnit(id) }},
+			{"buffer", 10000, func(g *gen, id string) *UnitCase { return g.bufferUnit(id) }},
+			{"hex", 10000, func(g *gen, id string) *UnitCase { return g.hexUnit(id) }},
+		},
 	},
 	"C07": {
 		id:      "C07",
@@ -254,6 +265,24 @@ var propSpecs = map[string]*propSpec{
 			return c.Go != nil && (c.Go.Result.Reason.BSS != nil || len(c.Go.BSQueries) > 0)
 		},
 		rule: "big and regular segments from rules, nested segments and prerequisites x multi-kind contexts x store outcomes; non-trivial = a status was reported or the provider was queried",
+	},
+	"C18": {
+		id:      "C18",
+		streams: []stream{{"dateops", 20000}},
+		proj: func(o *WObs) any {
+			return []any{o.Result.Reason.Kind, o.Result.Reason.ErrorKind, o.Result.Reason.RuleIndex}
+		},
+		goPred: func(c *EvalCase, out *evalOutcome) string {
+			if c.Go.Outcome != "done" {
+				return "before/after evaluation did not complete normally: " + c.Go.Outcome + " " + c.Go.Panic
+			}
+			return ""
+		},
+		nontrivial: func(c *EvalCase) bool { return c.Go != nil && c.Go.Result.Reason.Kind == "RULE_MATCH" },
+		rule:       "timestamp operands in string (any offset/fraction/case, years 0000-9999, corrupted and truncated) and numeric form on both sides of before/after clauses, plus unit conversions compared as exact nanosecond instants at all three conversion sites; non-trivial = distinct unit values / probe rule matched",
+		units: []unitStream{
+			{"time", 80000, func(g *gen, id string) *UnitCase { return g.timeUnit(id) }},
+		},
 	},
 	"C19": {
 		id:      "C19",
